@@ -1352,12 +1352,15 @@ impl Runner {
 
     /// The application answers every request it holds at once (nothing is read from the wire in
     /// between): the queue to the socket task holds 30 packets, the handler has to wait for room.
-    async fn app_respond_burst(&mut self, rng: &mut Rng) {
-        if self.w.pending_app_reqs.is_empty() {
+    async fn app_respond_burst(&mut self, rng: &mut Rng, peer: usize, since_step: usize) {
+        // (only the requests of that peer delivered since that step: older ones may belong to
+        // sessions that are gone)
+        let (reqs, rest): (Vec<_>, Vec<_>) = std::mem::take(&mut self.w.pending_app_reqs).into_iter().partition(|x| x.2 == peer && x.3 >= since_step);
+        self.w.pending_app_reqs = rest;
+        if reqs.is_empty() {
             return;
         }
         self.tick_gap().await;
-        let reqs = std::mem::take(&mut self.w.pending_app_reqs);
         let mut events = vec![];
         for (na, id, _pi, _) in reqs.iter() {
             let body = if rng.chance(1, 2) {
@@ -1525,10 +1528,28 @@ impl Runner {
         let id = RequestId(rng.bytes(idl));
         let body = match rng.below(3) {
             0 => RequestBody::Ping { enr_seq: rng.below(9) },
-            1 => RequestBody::FindNode { distances: vec![0] },
+            1 => RequestBody::FindNode {
+                distances: match rng.below(6) {
+                    0 => vec![],
+                    1 => vec![256],
+                    2 => vec![256, 255, 256],
+                    3 => (0..rng.range(2, 12)).map(|_| rng.below(257)).collect(),
+                    _ => vec![0],
+                },
+            },
             _ => RequestBody::Talk { protocol: b"x".to_vec(), request: rng.bytes(3) },
         };
-        let bytes = Request { id: id.clone(), body }.encode();
+        let is_talk = matches!(body, RequestBody::Talk { .. });
+        let req = Request { id: id.clone(), body };
+        let bytes = req.clone().encode();
+        // C06 / C14: what a peer encodes from a well-formed request decodes to that request (the
+        // handler hands a request to the application only if it decodes)
+        if Message::decode(&bytes).ok() != Some(Message::Request(req.clone())) {
+            self.w.fail("C06", format!("a well-formed request does not decode to itself: {:?}", req));
+            if !is_talk {
+                self.w.fail("C14", format!("a well-formed PING / FINDNODE request is rejected by the decoder and never reaches the service: {:?}", req));
+            }
+        }
         (id, bytes)
     }
 
@@ -1945,9 +1966,10 @@ impl Runner {
             if self.steps[n0..].iter().any(|s| s.outs.iter().any(|o| matches!(o, AOut::Request(..) | AOut::Response(..) | AOut::Established(..)))) {
                 self.w.failures.push(("C02".into(), "a datagram presented from the IPv4-mapped form of its source address was accepted".into()));
             }
-        } else if src != orig_src {
+        } else if src != orig_src && !(maker < self.w.peers.len() && src == self.w.peers[maker].addr) {
             // (every peer of the harness speaks from one socket address only: no session and no challenge
-            // exists for its node id at any other address)
+            // exists for its node id at any other address; a datagram first presented from a wrong
+            // address and now from its maker's own address is simply the genuine datagram)
             if self.steps[n0..].iter().any(|s| s.outs.iter().any(|o| matches!(o, AOut::Request(..) | AOut::Response(..) | AOut::Established(..)))) {
                 self.w.failures.push(("C02".into(), "a recorded datagram presented from another source address than the one it was sent from was accepted (session created or message delivered)".into()));
             }
@@ -2291,10 +2313,11 @@ async fn run_case(seed: u64, idx: u64, focus: &str, thorough: bool, fixes: &str)
         r.net_whoareyou(&mut rng, FORCE + q0).await;
         r.net_answer(&mut rng, FORCE + q0, 6).await;
         let n = rng.range(31, 44);
+        let since = r.steps.len();
         for _ in 0..n {
             r.net_request(&mut rng, p, false, false).await;
         }
-        r.app_respond_burst(&mut rng).await;
+        r.app_respond_burst(&mut rng, p, since).await;
         moves.push(format!("scripted: session with peer {}, {} requests of the peer, all answered at once", p, n));
     }
     // scripted opening: dial a peer whose record is unknown; the peer challenges, we answer with a
